@@ -14,6 +14,7 @@ tie (V)   publishers, churning subscribers, abrupt disconnects, a subscriber tha
           acknowledged unsubscribe / nothing missing / count within the linearizability window"""
 import json
 import re
+import time
 
 from . import gen_pubsub, lib
 
@@ -78,10 +79,11 @@ def shrink(d, case, harness=H):
     cid = case[0].split()[1]
     ops = case[1:-1]
     budget = 120
+    t_stop = time.time() + 90
 
     def fails(ops2):
         nonlocal budget
-        if budget <= 0 or not ops2 or not gen_pubsub.valid(ops2):
+        if budget <= 0 or time.time() > t_stop or not ops2 or not gen_pubsub.valid(ops2):
             return False
         budget -= 1
         res = run_seq(d, [["CASE " + cid] + ops2 + ["END"]], tag="shrink", harness=harness, timeout=120)
@@ -127,7 +129,7 @@ def describe_ops(case):
         elif f[0] == "D":
             out.append("conn %s: client closes the connection" % f[1])
         elif f[0] == "K":
-            out.append("conn %s: connection dies (server side closed)" % f[1])
+            out.append("conn %s: connection dies (writes to it fail from now on; the server has not noticed)" % f[1])
     return out
 
 
@@ -282,6 +284,19 @@ def run_conc(d, args, tag, harness=H, timeout=300):
 
 # ----------------------------------------------------------------------------- the check
 
+def account(seq_stats, c, verdict):
+    replies = int(verdict[1] or 0)
+    seq_stats["cases"] += 1
+    seq_stats["ops"] += len(c) - 2
+    seq_stats["replies"] += replies
+    n_conf = sum(len(l.split()) - 2 for l in c[1:-1] if l[0] == "S")
+    n_pub = sum(1 for l in c[1:-1] if l[0] == "P")
+    pushes = replies - n_conf - n_pub
+    seq_stats["pushes"] += pushes
+    if pushes > 0:
+        seq_stats["nontrivial"] += 1   # at least one message push was delivered and compared
+
+
 def lock_obligation(d):
     out = d / "lock.json"
     rc, log = lib.sh("%s lockcheck %s %s" % (lib.BUILD / H, lib.REPO, out), cwd=d, timeout=120)
@@ -346,36 +361,36 @@ def run(ctx):
     rc = 0
     nobl = 3
     facts, bad = (None, None)
-    seq_stats = dict(cases=0, ops=0, replies=0, nontrivial=0)
+    seq_stats = dict(cases=0, ops=0, replies=0, pushes=0, nontrivial=0)
     conc_stats = []
     samples = []
     if built:
         # ---- (T) lock obligation
         facts, bad = lock_obligation(d)
         lock_ok = facts is not None and bad == []
+        extra = {} if lock_ok else dict(lock_obligation_broken=bad if isinstance(bad, list) else str(bad))
         # ---- (D) sequential differential run
         ncases = 700 if not thorough else 12000
         cases = gen_pubsub.gen_programs(ctx.seed, ncases)
         harnesses = [H] + ([HR] if thorough else [])
         first_bad = None
+        nfixed = len(gen_pubsub.fixed_cases())
         for hn in harnesses:
             todo = cases if hn == H else cases[: 1500]
-            res = run_seq(d, todo, tag="main_" + hn, harness=hn, timeout=1500)
-            for c in todo:
-                cid = c[0].split()[1]
-                if failing(res, cid):
-                    if first_bad is None:
-                        first_bad = (hn, c, res.get(cid, ("MISSING", "")))
-                elif hn == H:
-                    seq_stats["cases"] += 1
-                    seq_stats["ops"] += len(c) - 2
-                    seq_stats["replies"] += int(res[cid][1] or 0)
-                    n_conf = sum(len(l.split()) - 2 for l in c[1:-1] if l[0] == "S")
-                    n_pub = sum(1 for l in c[1:-1] if l[0] == "P")
-                    pushes = int(res[cid][1] or 0) - n_conf - n_pub
-                    seq_stats["pushes"] = seq_stats.get("pushes", 0) + pushes
-                    if pushes > 0:
-                        seq_stats["nontrivial"] += 1   # at least one message push was delivered and compared
+            # the fixed cases first, then batches: stop at the first batch with a failure
+            batches = [todo[:nfixed]] + [todo[i:i + 200] for i in range(nfixed, len(todo), 200)]
+            for bi, batch in enumerate(batches):
+                res = run_seq(d, batch, tag="main_%s_%d" % (hn, bi), harness=hn, timeout=900)
+                for c in batch:
+                    cid = c[0].split()[1]
+                    if failing(res, cid):
+                        if first_bad is None:
+                            first_bad = (hn, c, res.get(cid, ("MISSING", "")))
+                        break
+                    if hn == H:
+                        account(seq_stats, c, res[cid])
+                if first_bad:
+                    break
             if first_bad:
                 break
         for c in cases[10:13]:
@@ -389,7 +404,7 @@ def run(ctx):
                 small, v2 = c, v
             lib.violation(PID, dict(kind="impl-vs-model", theorem="C19_delivery_exact / C19_publish_step / C19_publish_count",
                                     program=small[1:-1], readable=describe_ops(small), verdict=v2[0], detail=v2[1][:4000],
-                                    race_build=(hn == HR),
+                                    race_build=(hn == HR), **extra,
                                     note="every byte each connection received, decoded by the extracted decoder, must equal the model's output queue (= the specification by the theorems); 'conn=<c> model=… observed=…' names the first connection that differs"))
             ctx.violations += 1
             rc = 1
@@ -405,7 +420,7 @@ def run(ctx):
                 st["race_build"] = hn == HR
                 conc_stats.append(st)
                 if findings:
-                    lib.violation(PID, dict(kind="conc", args=list(a), race=(hn == HR), findings=findings[:8], n_findings=len(findings), stats=st,
+                    lib.violation(PID, dict(kind="conc", args=list(a), race=(hn == HR), findings=findings[:8], n_findings=len(findings), stats=st, **extra,
                                             note="concurrent scenario: harness_pubsub conc <seed> <publishers> <subscribers> <messages per publisher> <channels> <stalled subscriber> <watchdog s>"))
                     ctx.violations += 1
                     rc = 1
